@@ -248,6 +248,16 @@ func init() {
 					}
 				}
 				c.Check(okTaken, fnKey(f)+" / equal-rule-keeps-object", f.Pos(), "the new list receives the old object old[equalIdx] of an unchanged rule (%d take-over sites)", len(ers))
+				// a pairing map must be keyed by the position in the loaded list: keyed by the rule object, the same rule
+				// listed twice collapses onto one entry (one old object installed twice, the other pairing lost)
+				for _, er := range ers {
+					if er.viaMap == nil {
+						continue
+					}
+					mu := er.at.(*ssa.MapUpdate)
+					_, isInt := mu.Key.Type().Underlying().(*types.Basic)
+					c.Check(isInt && isIntegerT(mu.Key.Type()), fnKey(f)+" / pairing-keyed-by-position", mu.Pos(), "unchanged rules are paired with their old objects in a map keyed by list position (key type %s)", mu.Key.Type())
+				}
 				for i, g := range bs.gens {
 					key := fmt.Sprintf("%s / generator#%d", fnKey(f), i+1)
 					forEqual := false
